@@ -9,6 +9,7 @@ Trace records (tuples, first element is the kind):
 
   ("call", k, entry, t)                       k-th call on this world begins at virtual time t
   ("poll", answer)                            abort_if consulted
+  ("abort_flag", where, t)                    flag mode: the abort condition became true here
   ("astart", attempt, elapsed) / ("aend", attempt, decision, stop_reason, cause, sleep_s,
                                            exc_idx, res_idx, klass)
   ("op", n, label, t0, t1, obj_idx)           operation invocation n (1-based, per call)
@@ -105,12 +106,13 @@ class HookFault(Exception):
 
 
 class Val:
-    __slots__ = ("n", "fail", "ra")
+    __slots__ = ("n", "fail", "ra", "asked")
 
     def __init__(self, n, fail=None, ra=None):
         self.n = n
         self.fail = fail
         self.ra = ra
+        self.asked = False
 
 
 class AwaitObj:
@@ -194,6 +196,9 @@ DEFAULT_CFG = {
     "overshoot": [0],
     "over_free": False,
     "abort": False,              # abort_if supplied
+    "abort_mode": "answer",      # "answer": every poll is a choice point; "flag": abort_if reads a
+                                 # flag that the environment may raise (once, for good) at the end of
+                                 # an attempt, during a sleep or inside the strategy (1 deviation)
     "handler": None,             # None | "policy" | "call" | "both"
     "handler_menu": ["SLEEP", "DEFER", "ABORT"],
     "handler_free": False,
@@ -217,6 +222,9 @@ DEFAULT_CFG = {
     "wall_jumps": False,
     "ra_ticks": 2,
     "frac": 0.0,
+    "rc_mode": "pure",           # "oneshot": the result classifier gives its verdict once per object;
+                                 # asked again about the same object it says "success" (None)
+    "strat_obj": False,          # strategies are objects exposing record_success / record_failure
     "loop": False,               # async entry points run as Tasks on the virtual event loop
     "attempt_timeout": None,     # ticks: attempt_timeout_s (sync: owned executor; async: needs loop)
     "nest": None,                # {"site": "aend"|"metric"|"strategy", "entry": ..., "script": [...]}:
@@ -257,6 +265,7 @@ class World:
         self.timeline_obj = None
         self.susp_after_throw = False
         self._last_op_exc = None
+        self._abort_flag = False
         self._nesting = False
         self._nested_done = False
         self._forced = None
@@ -425,6 +434,14 @@ class World:
         i = self.ident(res)
         self.fault("rclassifier")
         fail = getattr(res, "fail", None)
+        if self.cfg["rc_mode"] == "oneshot" and fail is not None:
+            if getattr(res, "asked", False):
+                fail = None
+            else:
+                try:
+                    res.asked = True
+                except AttributeError:
+                    pass
         if fail is None:
             self.trace.append(("rclassify", i, None, None, None))
             return None
@@ -443,12 +460,29 @@ class World:
         free = self.cfg["strat_free"]
 
         def answer():
+            world.maybe_flip("strategy")
             world.maybe_nest("strategy")
             world.intrude("strategy")
             world.fault("strategy")
             a = menu[world.ch.choose("strat", len(menu), free)] if len(menu) > 1 else menu[0]
             return a, strat_value(a)
 
+        if style == "ctx+opt":
+            # context-style strategy with optional extra positional parameters
+            def strat_ctx_opt(ctx, scale=1.0, cap=None):
+                if not hasattr(ctx, "classification"):
+                    world.trace.append(("strategy", name, "ctx+opt", "NOT-A-CONTEXT", repr(ctx)[:40],
+                                        None, None, None, None, None, "?"))
+                    return 0.0
+                a, v = answer()
+                cl = ctx.classification
+                world.trace.append((
+                    "strategy", name, "ctx", ctx.attempt, klass_name(cl.klass),
+                    ticks(cl.retry_after_s), ticks(ctx.prev_sleep_s), ticks(ctx.remaining_s),
+                    ctx.cause, world.ident(cl) if world.oid.get(id(cl)) is not None else None,
+                    a))
+                return v
+            return self._wrap_strategy(name, strat_ctx_opt)
         if style == "ctx":
             def strat_ctx(ctx):
                 a, v = answer()
@@ -459,7 +493,7 @@ class World:
                     ctx.cause, world.ident(cl) if world.oid.get(id(cl)) is not None else None,
                     a))
                 return v
-            return strat_ctx
+            return self._wrap_strategy(name, strat_ctx)
 
         def strat_legacy(attempt, klass, prev_sleep_s):
             a, v = answer()
@@ -469,11 +503,40 @@ class World:
             return v
         return strat_legacy
 
+    def _wrap_strategy(self, name, fn):
+        """Optionally present the strategy as an object with the record_success /
+        record_failure protocol that stateful strategies (adaptive) rely on."""
+        if not self.cfg["strat_obj"]:
+            return fn
+        world = self
+
+        class StrategyObject:
+            def __call__(self, ctx):
+                return fn(ctx)
+
+            def record_success(self):
+                world.trace.append(("strategy_rec", name, "success"))
+
+            def record_failure(self, klass=None):
+                world.trace.append(("strategy_rec", name, "failure", klass_name(klass)))
+
+        return StrategyObject()
+
     def abort_if(self):
         self.fault("abort_if")
-        a = self.ch.choose("poll", 2) == 1
+        if self.cfg["abort_mode"] == "flag":
+            a = self._abort_flag
+        else:
+            a = self.ch.choose("poll", 2) == 1
         self.trace.append(("poll", a))
         return a
+
+    def maybe_flip(self, where):
+        """Flag mode: the abort condition becomes true here (and stays true)."""
+        if self.cfg["abort"] and self.cfg["abort_mode"] == "flag" and not self._abort_flag:
+            if self.ch.choose("flip", 2):
+                self._abort_flag = True
+                self.trace.append(("abort_flag", where, self.rel()))
 
     def make_handler(self, which):
         world = self
@@ -523,6 +586,7 @@ class World:
         E.advance(s)
         E.advance(o * TAU)
         self.trace.append(("sleep", which, ticks(s), t0, self.rel()))
+        self.maybe_flip("sleep")
 
     async def _loop_sleep(self, which, s):
         """Sleeper on the virtual loop: really suspends for s (+ overshoot) of virtual time."""
@@ -618,21 +682,25 @@ class World:
         t1 = self.rel()
         return n, label, t0, t1
 
+    def _rec_op(self, rec):
+        self.trace.append(rec)
+        self.maybe_flip("op")   # the abort condition may become true while the attempt runs
+
     def _op_finish(self, n, label, t0, t1):
         if label == "ok":
             v = Val(n)
-            self.trace.append(("op", n, label, t0, t1, self.reg(v)))
+            self._rec_op(("op", n, label, t0, t1, self.reg(v)))
             return v
         kind, _, rest = label.partition(":")
         if kind == "r":
             k, _, ra = rest.partition("+")
             v = Val(n, fail=k, ra=self.cfg["ra_ticks"] if ra else None)
-            self.trace.append(("op", n, label, t0, t1, self.reg(v)))
+            self._rec_op(("op", n, label, t0, t1, self.reg(v)))
             return v
         if kind == "x" and rest.endswith("@") and self._last_op_exc is not None:
             # the operation raises the very same exception object again (e.g. a cached failure)
             exc = self._last_op_exc
-            self.trace.append(("op", n, "x:" + exc.spec[0], t0, t1, self.ident(exc)))
+            self._rec_op(("op", n, "x:" + exc.spec[0], t0, t1, self.ident(exc)))
             _raise_here(exc)
         if kind == "x":
             rest = rest.rstrip("@")
@@ -664,7 +732,7 @@ class World:
             exc = TimeoutError("t")
         else:
             raise HarnessError(f"unknown outcome label {label}")
-        self.trace.append(("op", n, label, t0, t1, self.reg(exc)))
+        self._rec_op(("op", n, label, t0, t1, self.reg(exc)))
         _raise_here(exc)
 
     def op_sync(self):
@@ -782,6 +850,17 @@ class World:
         elif base in ("RetryPolicy", "AsyncRetryPolicy"):
             cls = AsyncRetryPolicy if is_async else RetryPolicy
             obj = cls(**self._retry_kwargs(is_async, with_attempt_hooks=False))
+            if self.breaker is not None:
+                obj.policy.circuit_breaker = self.breaker
+        elif base in ("RetryPolicySet", "AsyncRetryPolicySet"):
+            # the wrapper is built bare and configured by attribute assignment afterwards
+            cls = AsyncRetryPolicy if is_async else RetryPolicy
+            kw = self._retry_kwargs(is_async, with_attempt_hooks=False)
+            late = {k: kw.pop(k) for k in ("result_classifier", "sleep", "before_sleep", "sleeper",
+                                           "budget") if k in kw}
+            obj = cls(**kw)
+            for k, val in late.items():
+                setattr(obj, k, val)
             if self.breaker is not None:
                 obj.policy.circuit_breaker = self.breaker
         elif base in ("deco", "adeco"):
